@@ -1427,6 +1427,10 @@ var ZipmapFunc = function.New(&function.Spec{
 		for it := keys.ElementIterator(); it.Next(); {
 			_, v := it.Element()
 			v, vMarks := v.Unmark()
+			if v.IsNull() {
+				// (the type callback can only catch this when the values are a tuple)
+				return cty.NilVal, fmt.Errorf("keys list has null value at index %d", i)
+			}
 			val := values.Index(cty.NumberIntVal(int64(i)))
 			output[v.AsString()] = val
 
